@@ -29,14 +29,14 @@ Proof. reflexivity. Qed.
 Lemma clicks_pass n st p :
   clicks (snd (b_pass (Some n) st p)) = b2n (fst p && negb (b_prev st)).
 Proof.
-  unfold b_pass, b_poll, clicks. cbn [fst snd].
+  unfold b_pass, b_poll, clicks. cbv zeta. cbn [fst snd b_prev b_value b_is_pressed].
   destruct (fst p && negb (b_prev st)); cbn [filter is_click app];
     rewrite ?filter_app, ?filter_click_repeatH, ?filter_click_repeatP; reflexivity.
 Qed.
 
 Lemma clicks_pass_none st p : clicks (snd (b_pass None st p)) = 0.
 Proof.
-  unfold b_pass, b_poll, clicks. cbn [fst snd filter is_click app].
+  unfold b_pass, b_poll, clicks. cbv zeta. cbn [fst snd filter is_click app].
   rewrite filter_click_repeatP. reflexivity.
 Qed.
 
@@ -54,18 +54,18 @@ Proof.
   rewrite clicks_pass_none, IH. reflexivity.
 Qed.
 
-Lemma clicks_dev_before n s0 ps :
-  map clicks (dev_run BeforeLoop (Some n) s0 ps) = map b2n (edges s0 (map fst ps)).
-Proof. unfold dev_run. rewrite clicks_run. reflexivity. Qed.
+(* after setup() the previous sample is the setup sample, wherever the button is declared *)
+Lemma setup_state pl s0 : fst (b_setup pl s0) = {| b_prev := s0; b_value := s0 |}.
+Proof. destruct pl; reflexivity. Qed.
 
-Lemma clicks_dev_looptop n s0 ps :
-  map clicks (dev_run LoopTop (Some n) s0 ps) = map b2n (edges false (map fst ps)).
-Proof. unfold dev_run. rewrite clicks_run. reflexivity. Qed.
+Lemma clicks_dev pl n s0 ps :
+  map clicks (dev_run pl (Some n) s0 ps) = map b2n (edges s0 (map fst ps)).
+Proof. unfold dev_run. rewrite clicks_run, setup_state. reflexivity. Qed.
 
 (* exactly one digitalRead per pass, and it is that pass's sample *)
 Lemma reads_pass h st p : reads (snd (b_pass h st p)) = [fst p].
 Proof.
-  unfold b_pass, b_poll, reads. cbn [fst snd flat_map app].
+  unfold b_pass, b_poll, reads. cbv zeta. cbn [fst snd flat_map app b_prev b_value b_is_pressed].
   rewrite flat_map_app.
   rewrite (flat_map_repeat_nil _ (BPrint _)) by reflexivity.
   destruct h as [n|]; [destruct (fst p && negb (b_prev st))|]; cbn [flat_map app];
@@ -82,11 +82,15 @@ Lemma one_sample_per_pass pl h s0 ps :
   map reads (dev_run pl h s0 ps) = map (fun p => [fst p]) ps.
 Proof. apply reads_run. Qed.
 
+(* setup() takes exactly one sample and never enters the handler *)
+Lemma setup_events pl s0 : snd (b_setup pl s0) = [BRead s0].
+Proof. destruct pl; reflexivity. Qed.
+
 (* every is_pressed() of the loop body returns the sample of its pass *)
 Lemma body_values_pass h st p :
   body_values (snd (b_pass h st p)) = repeat (fst p) (snd p).
 Proof.
-  unfold b_pass, b_poll, body_values. cbn [fst snd flat_map app b_is_pressed b_value].
+  unfold b_pass, b_poll, body_values. cbv zeta. cbn [fst snd flat_map app b_is_pressed b_value b_prev].
   rewrite flat_map_app.
   rewrite (flat_map_repeat_one _ (BPrint (fst p)) (fst p)) by reflexivity.
   destruct h as [n|]; [destruct (fst p && negb (b_prev st))|]; cbn [flat_map app];
@@ -104,50 +108,66 @@ Lemma sample_stable pl h s0 ps :
   map body_values (dev_run pl h s0 ps) = map (fun p => repeat (fst p) (snd p)) ps.
 Proof. apply body_values_run. Qed.
 
-(* is_pressed() inside the handler: the value of the *previous* sample *)
+(* is_pressed() inside the handler: the cached value has already been updated, it is the sample of
+   this pass - once per evaluation, in the passes in which the handler runs *)
 Lemma handler_values_pass h st p :
   handler_values (snd (b_pass h st p)) =
-  if fst p && negb (b_prev st) then repeat (b_value st) (hcalls h) else [].
+  if fst p && negb (b_prev st) then repeat (fst p) (hcalls h) else [].
 Proof.
-  unfold b_pass, b_poll, handler_values. cbn [fst snd flat_map app b_is_pressed].
+  unfold b_pass, b_poll, handler_values. cbv zeta. cbn [fst snd flat_map app b_is_pressed b_value b_prev].
   rewrite flat_map_app.
   rewrite (flat_map_repeat_nil _ (BPrint _)) by reflexivity.
   destruct h as [n|]; cbn [hcalls].
   - destruct (fst p && negb (b_prev st)); cbn [flat_map app]; [|reflexivity].
-    rewrite (flat_map_repeat_one _ (BPrintH (b_value st)) (b_value st)) by reflexivity.
+    rewrite (flat_map_repeat_one _ (BPrintH (fst p)) (fst p)) by reflexivity.
     rewrite app_nil_r. reflexivity.
   - cbn. destruct (fst p && negb (b_prev st)); reflexivity.
 Qed.
 
-Lemma handler_values_run_nocall h st ps :
-  hcalls h = 0 -> map handler_values (b_run h st ps) = map (fun _ => []) ps.
+Lemma handler_values_run h st ps :
+  map handler_values (b_run h st ps) =
+  map (fun e : bool => if e then repeat true (hcalls h) else []) (edges (b_prev st) (map fst ps)).
 Proof.
-  intro H0. revert st. induction ps as [|p r IH]; intro st; cbn [b_run map]; [reflexivity|].
-  rewrite handler_values_pass, IH, H0. destruct (fst p && negb (b_prev st)); reflexivity.
+  revert st. induction ps as [|p r IH]; intro st; cbn [b_run map edges]; [reflexivity|].
+  rewrite handler_values_pass, IH, pass_state. cbn [b_prev]. f_equal.
+  destruct (fst p); [|reflexivity]. reflexivity.
 Qed.
 
-Lemma sample_stable_partial pl h s0 ps :
-  hcalls h = 0 -> map handler_values (dev_run pl h s0 ps) = map (fun _ => []) ps.
-Proof. apply handler_values_run_nocall. Qed.
+Lemma handler_values_exact pl h s0 ps :
+  map handler_values (dev_run pl h s0 ps) =
+  map (fun e : bool => if e then repeat true (hcalls h) else []) (edges s0 (map fst ps)).
+Proof. unfold dev_run. rewrite handler_values_run, setup_state. reflexivity. Qed.
 
-(* with value = prev (true after setup and after every pass) a handler evaluation always
-   returns 0 although the sample of its pass is 1 *)
-Lemma handler_values_run_stale h st ps :
-  b_value st = b_prev st ->
-  Forall2 (fun p evs => forall v, In v (handler_values evs) -> v = false /\ fst p = true)
-          ps (b_run h st ps).
+Lemma handler_values_run_current h st ps :
+  Forall2 (fun p evs => forall v, In v (handler_values evs) -> v = fst p) ps (b_run h st ps).
 Proof.
-  revert st. induction ps as [|p r IH]; intros st Hinv; cbn [b_run]; constructor.
-  - intros v Hin. rewrite handler_values_pass in Hin.
-    destruct (fst p) eqn:Ep; destruct (b_prev st) eqn:Epr; cbn in Hin; try contradiction.
-    apply repeat_spec in Hin. split; congruence.
-  - apply IH. reflexivity.
+  revert st. induction ps as [|p r IH]; intro st; cbn [b_run]; constructor; [|apply IH].
+  intros v Hin. rewrite handler_values_pass in Hin.
+  destruct (fst p && negb (b_prev st)); [|contradiction].
+  apply repeat_spec in Hin. exact Hin.
 Qed.
 
-Lemma handler_sees_previous pl h s0 ps :
-  Forall2 (fun p evs => forall v, In v (handler_values evs) -> v = false /\ fst p = true)
-          ps (dev_run pl h s0 ps).
-Proof. apply handler_values_run_stale. destruct pl; reflexivity. Qed.
+Lemma nth_error_Forall2 {A B} (R : A -> B -> Prop) l1 l2 :
+  Forall2 R l1 l2 -> forall k a b, nth_error l1 k = Some a -> nth_error l2 k = Some b -> R a b.
+Proof.
+  induction 1 as [|x y l1 l2 Hxy Hr IH]; intros k a b Ha Hb; destruct k as [|k]; cbn in *; try discriminate.
+  - injection Ha as <-. injection Hb as <-. exact Hxy.
+  - eapply IH; eassumption.
+Qed.
+
+(* the clause the firmware used to violate (is_pressed() inside the handler), positively: in every pass
+   of every run, every value the handler reads is the sample of that pass *)
+Lemma sample_stable_handler pl h s0 ps k evs v sample :
+  nth_error (dev_run pl h s0 ps) k = Some evs ->
+  nth_error (map fst ps) k = Some sample ->
+  In v (handler_values evs) -> v = sample.
+Proof.
+  intros Hev Hs Hin.
+  destruct (nth_error ps k) as [p|] eqn:Ep.
+  - rewrite (map_nth_error fst k ps Ep) in Hs. injection Hs as <-.
+    exact (nth_error_Forall2 _ _ _ (handler_values_run_current h (fst (b_setup pl s0)) ps) k p evs Ep Hev v Hin).
+  - rewrite nth_error_map, Ep in Hs. discriminate.
+Qed.
 
 (* host Button *)
 Lemma host_clicks was s : map fst (h_run true was s) = edges was s.
@@ -162,29 +182,22 @@ Proof.
   cbn [h_is_pressed fst snd]. rewrite IH. reflexivity.
 Qed.
 
-Lemma host_agrees n s0 ps :
+Lemma host_agrees pl n s0 ps :
   s0 = false ->
-  map clicks (dev_run BeforeLoop (Some n) s0 ps) =
+  map clicks (dev_run pl (Some n) s0 ps) =
   map (fun r => b2n (fst r)) (host_run true (map fst ps)).
 Proof.
-  intros ->. rewrite clicks_dev_before. unfold host_run.
-  rewrite <- (host_clicks false (map fst ps)), map_map. reflexivity.
-Qed.
-
-Lemma host_agrees_looptop n s0 ps :
-  map clicks (dev_run LoopTop (Some n) s0 ps) =
-  map (fun r => b2n (fst r)) (host_run true (map fst ps)).
-Proof.
-  rewrite clicks_dev_looptop. unfold host_run.
+  intros ->. rewrite clicks_dev. unfold host_run.
   rewrite <- (host_clicks false (map fst ps)), map_map. reflexivity.
 Qed.
 
 (* start-up *)
-Lemma no_startup_click h s0 ps :
-  clicks (snd (b_setup BeforeLoop s0)) = 0 /\
-  (s0 = true -> forall evs, hd_error (dev_run BeforeLoop h s0 ps) = Some evs -> clicks evs = 0).
+Lemma no_startup_click pl h s0 ps :
+  clicks (snd (b_setup pl s0)) = 0 /\
+  (s0 = true -> forall evs, hd_error (dev_run pl h s0 ps) = Some evs -> clicks evs = 0).
 Proof.
-  split; [reflexivity|]. intros -> evs. unfold dev_run. cbn [b_setup fst]. destruct ps as [|p r]; cbn [b_run hd_error]; [discriminate|].
+  split; [rewrite setup_events; reflexivity|]. intros -> evs. unfold dev_run. rewrite setup_state.
+  destruct ps as [|p r]; cbn [b_run hd_error]; [discriminate|].
   intro H. assert (E : snd (b_pass h {| b_prev := true; b_value := true |} p) = evs) by congruence.
   rewrite <- E. clear H E. destruct h as [n|].
   - rewrite clicks_pass. cbn. rewrite andb_false_r. reflexivity.
@@ -197,39 +210,13 @@ Proof.
   cbn in Hall. apply andb_true_iff in Hall as [-> Hr]. cbn. f_equal. apply IH; auto.
 Qed.
 
-Lemma no_click_while_held h s0 ps :
+Lemma no_click_while_held pl h s0 ps :
   s0 = true -> forallb (fun x => x) (map fst ps) = true ->
-  map clicks (dev_run BeforeLoop h s0 ps) = map (fun _ => 0) ps.
+  map clicks (dev_run pl h s0 ps) = map (fun _ => 0) ps.
 Proof.
   intros Hs Hall. destruct h as [n|].
-  - rewrite clicks_dev_before, (edges_held _ _ Hs Hall), map_map. reflexivity.
+  - rewrite clicks_dev, (edges_held _ _ Hs Hall), map_map. reflexivity.
   - apply clicks_run_none.
-Qed.
-
-Lemma looptop_partial n s0 p ps :
-  fst p = false ->
-  map clicks (dev_run LoopTop (Some n) s0 (p :: ps)) = map b2n (false :: edges (fst p) (map fst ps)).
-Proof. intro Hp. rewrite clicks_dev_looptop. cbn [map edges]. rewrite Hp. reflexivity. Qed.
-
-(* concrete witnesses of the two refuted clauses *)
-Lemma sample_stable_handler_refuted :
-  exists (h : option nat) (s0 : bool) (ps : list (bool * nat)) (k : nat) (evs : list bev) (v sample : bool),
-    nth_error (dev_run BeforeLoop h s0 ps) k = Some evs /\
-    nth_error (map fst ps) k = Some sample /\
-    In v (handler_values evs) /\ v <> sample.
-Proof.
-  exists (Some 1), false, [(true, 1)], 0,
-         [BRead true; BClick; BPrintH false; BPrint true], false, true.
-  vm_compute. repeat split; auto. discriminate.
-Qed.
-
-Lemma no_startup_click_looptop_refuted :
-  exists (h : option nat) (s0 : bool) (ps : list (bool * nat)) (evs : list bev),
-    s0 = true /\ forallb (fun x => x) (map fst ps) = true /\
-    hd_error (dev_run LoopTop h s0 ps) = Some evs /\ clicks evs = 1.
-Proof.
-  exists (Some 0), true, [(true, 0); (true, 0)], [BRead true; BClick].
-  vm_compute. auto.
 Qed.
 
 (* ====================================================================== *)
@@ -278,11 +265,11 @@ Lemma u_loop_S W k drift echo st c np :
   let a := u_attempt W drift echo st c np in
   if 0 <? pulse_result (echo np) then
     {| r_val := dist_of (pulse_result (echo np));
-       r_st := {| last_trig := a_stamp a; last_dist := dist_of (pulse_result (echo np)); has_dist := true |};
+       r_st := {| last_trig := a_stamp a; has_trig := true; last_dist := dist_of (pulse_result (echo np)); has_dist := true |};
        r_clk := a_clk a; r_np := S np; r_evs := attempt_events a |}
   else
     let r := u_loop W k drift echo
-               {| last_trig := a_stamp a; last_dist := last_dist st; has_dist := has_dist st |}
+               {| last_trig := a_stamp a; has_trig := true; last_dist := last_dist st; has_dist := has_dist st |}
                (a_clk a) (S np) in
     {| r_val := r_val r; r_st := r_st r; r_clk := r_clk r; r_np := r_np r;
        r_evs := attempt_events a ++ r_evs r |}.
@@ -476,11 +463,12 @@ Proof.
   - apply Z.mod_le; lia.
 Qed.
 
+(* [prev] = the last trigger so far (None: the helper has not triggered yet, and its flag says so) *)
 Definition inv (W : Z) (prev : option trig) (T : Z) (st : ustate) (c : clock) : Prop :=
-  last_trig st = wrap W T /\ 0 <= T <= true_ms c /\
+  0 <= T <= true_ms c /\
   match prev with
-  | Some (t1, _, m1) => m1 = last_trig st /\ t1 / 1000 <= T
-  | None => True
+  | Some (t1, _, m1) => has_trig st = true /\ last_trig st = wrap W T /\ m1 = last_trig st /\ t1 / 1000 <= T
+  | None => has_trig st = false
   end.
 
 Lemma attempt_step W drift echo prev T st c np :
@@ -490,32 +478,35 @@ Lemma attempt_step W drift echo prev T st c np :
   match prev with Some p => spaced p b | None => True end /\
   (forall d, a_delay a = Some d -> 1 <= d <= min_interval) /\
   forall ld hd, inv W (Some b) (true_ms (a_clk a))
-                    {| last_trig := a_stamp a; last_dist := ld; has_dist := hd |} (a_clk a).
+                    {| last_trig := a_stamp a; has_trig := true; last_dist := ld; has_dist := hd |} (a_clk a).
 Proof.
-  intros HW Hd (Hlast & Hl & Hp). cbv zeta.
+  intros HW Hd (Hl & Hp). cbv zeta.
   pose proof (pulse_cost_nonneg (pulse_result (echo np))) as Hc.
   pose proof (Hd (ndelay c)) as Hdk.
   pose proof (wrapped_elapsed W (true_ms c) T HW (proj2 Hl)) as He.
   unfold u_attempt, after_backoff, backoff_delay, inv, spaced, millis, tick_us, do_delay, min_interval in *.
-  cbn [a_t a_dur a_stamp a_clk a_delay now_us ndelay last_trig].
-  rewrite Hlast in *.
-  set (e := wrap W (wrap W (true_ms c) - wrap W T)) in *. clearbody e.
-  set (last := wrap W T) in *. clearbody last.
-  unfold true_ms in *.
+  cbn [a_t a_dur a_stamp a_clk a_delay now_us ndelay last_trig has_trig].
   set (cost := pulse_cost (pulse_result (echo np))) in *. clearbody cost.
   set (dk := drift (ndelay c)) in *. clearbody dk.
-  clear Hd Hlast HW.
-  remember (60 - e) as dl eqn:Hdl.
-  destruct (last =? 0) eqn:E0; [apply Z.eqb_eq in E0|apply Z.eqb_neq in E0];
-    [|destruct (e <? 60) eqn:E1; [apply Z.ltb_lt in E1|apply Z.ltb_ge in E1]];
-    cbn [now_us ndelay];
-    set (now := now_us c) in *; clearbody now;
-    (split;
-     [ destruct prev as [[[t1 d1] m1]|]; [|exact I]; destruct Hp as [Hm Hp]; intro Hne;
-       Z.div_mod_to_equations; lia
-     | split;
-       [ intros d Hdd; try discriminate; injection Hdd as <-; lia
-       | intros _ _; repeat split; try reflexivity; clear Hp; Z.div_mod_to_equations; lia ] ]).
+  clear Hd.
+  destruct prev as [[[t1 d1] m1]|].
+  - destruct Hp as (Hh & Hlast & Hm & Hp). rewrite Hh, Hlast in *. cbn [negb].
+    set (e := wrap W (wrap W (true_ms c) - wrap W T)) in *. clearbody e.
+    set (last := wrap W T) in *. clearbody last.
+    unfold true_ms in *.
+    remember (60 - e) as dl eqn:Hdl.
+    destruct (e <? 60) eqn:E1; [apply Z.ltb_lt in E1|apply Z.ltb_ge in E1];
+      cbn [now_us ndelay];
+      set (now := now_us c) in *; clearbody now;
+      (split;
+       [ Z.div_mod_to_equations; lia
+       | split;
+         [ intros d Hdd; try discriminate; injection Hdd as <-; lia
+         | intros _ _; repeat split; try reflexivity; clear Hp; Z.div_mod_to_equations; lia ] ]).
+  - rewrite Hp. cbn [negb]. unfold true_ms in *.
+    set (now := now_us c) in *. clearbody now.
+    split; [exact I|]. split; [intros d Hdd; discriminate|].
+    intros _ _. cbn [now_us ndelay]. repeat split; try reflexivity; Z.div_mod_to_equations; lia.
 Qed.
 
 Lemma u_loop_chain W drift echo (HW : 0 <= W) (Hd : forall k, 0 <= drift k) n : forall prev T st c np,
@@ -540,7 +531,7 @@ Qed.
 
 Lemma inv_gap W prev T st c g : 0 <= g_us g -> inv W prev T st c -> inv W prev T st (pass_gap c g).
 Proof.
-  intros Hg (Hlast & Hl & Hp). split; [exact Hlast|]. split; [|exact Hp].
+  intros Hg (Hl & Hp). split; [|exact Hp].
   unfold true_ms, pass_gap in *. cbn [now_us].
   Z.div_mod_to_equations; lia.
 Qed.
@@ -557,11 +548,10 @@ Proof.
   apply (IH _ T'); [exact H2|exact Hgr].
 Qed.
 
-Lemma init_inv W c0 : 0 <= W -> 0 <= now_us c0 -> inv W None 0 u_init c0.
+Lemma init_inv W c0 : 0 <= now_us c0 -> inv W None 0 u_init c0.
 Proof.
-  intros HW Hc. split; [|split; [|exact I]].
-  - cbn [u_init last_trig]. unfold wrap. rewrite Z.mod_0_l; [reflexivity|]. pose proof (modulus_pos W HW). lia.
-  - unfold true_ms. Z.div_mod_to_equations; lia.
+  intros Hc. split; [|reflexivity].
+  unfold true_ms. Z.div_mod_to_equations; lia.
 Qed.
 
 Lemma backoff_history W drift echo c0 gs :
@@ -620,8 +610,8 @@ Proof.
 Qed.
 
 (* the unsigned long stored after a trigger is the wrapped true time of a moment not before the
-   trigger: "stored time = 0" (the code's own notion of "the millisecond clock is not running yet")
-   happens exactly when that true time is a multiple of 2^W *)
+   trigger: it is 0 exactly when that true time is a multiple of 2^W (the first millisecond after
+   power-up, and every roll-over) - which is why the helper keeps a separate "has triggered" flag *)
 Lemma stamp_after_trigger W drift echo st c np :
   let a := u_attempt W drift echo st c np in
   a_stamp a = wrap W (true_ms (a_clk a)) /\ a_t a / 1000 <= true_ms (a_clk a).
@@ -632,20 +622,4 @@ Proof.
   set (cost := pulse_cost _) in *. clearbody cost.
   set (x := now_us (after_backoff W drift st c)). clearbody x.
   Z.div_mod_to_equations; lia.
-Qed.
-
-(* the "stored time <> 0" exemption re-appears at the roll-over: W = 32, start 1 ms before 2^32 ms,
-   echo 1000 us: the stored time is 2^32 mod 2^32 = 0 and the second call triggers 1 ms later *)
-Lemma backoff_rollover_zero_refuted :
-  exists (W : Z) (drift echo : nat -> Z) (c0 : clock) (gs : list gap) (t1 d1 t2 d2 m2 : Z),
-    0 <= W /\ (forall k, 0 <= drift k) /\ Forall (fun g => 0 <= g_us g) gs /\
-    trigs (history_events (u_calls W drift echo u_init c0 0 gs)) = [(t1, d1, 0); (t2, d2, m2)] /\
-    60 <= t1 / 1000 /\ t2 / 1000 - t1 / 1000 < 60.
-Proof.
-  exists 32, (fun _ => 0), (fun _ => 1000), {| now_us := (2 ^ 32 - 1) * 1000; ndelay := 0 |},
-         [{| g_us := 0; g_delays := 0 |}; {| g_us := 0; g_delays := 0 |}],
-         4294967295002, 1000, 4294967296014, 1000, 1.
-  split; [discriminate|]. split; [intros _; discriminate|].
-  split; [repeat constructor; discriminate|].
-  split; [vm_compute; reflexivity|]. split; vm_compute; [discriminate|reflexivity].
 Qed.
